@@ -13,8 +13,12 @@ Necessary conditions of "no leak, no double free, aliasing inserts, same returne
         removed range); insert(pos, v) returns begin()+offset after reallocation and pos otherwise
  BUF    buffer::release hands (first_, read_end_, cap_) to the raw_vector rep (read area, not write
         area) and nulls the buffer; to_raw_vector builds the vector from release()
-Declined: equivalence with std::vector over operation histories, capacity >= size, every bounds
-argument about new_size <= capacity (relational numeric invariants over pointers).
+ OWN-3  a member that overwrites the whole impl_ of an existing object (move-assignment of impl_, set_pointers)
+        has released the old storage on that path first (deallocate()), or is a swap
+ CAP    every in-place advance of an end pointer (++last_, last_ += n, write_end_ = read_end_ + n) is dominated
+        by a guard that is, by linear normalisation over the pointer fields (size() = last_-first_, capacity() =
+        cap_-first_, read_size() = read_end_-first_, ...), exactly `advanced pointer + n <= cap_`
+Declined: equivalence with std::vector over operation histories, the growth policy, element values.
 """
 from engine import facts as F
 from engine import load
@@ -73,6 +77,186 @@ def own1_path(u, fn, seq):
     return "ok"
 
 
+END_FIELDS = ("last_", "read_end_", "write_end_")
+ACCESSORS = {"size": {"last_": 1, "first_": -1}, "capacity": {"cap_": 1, "first_": -1}, "read_size": {"read_end_": 1, "first_": -1},
+             "write_size": {"write_end_": 1, "read_end_": -1}, "end": {"last_": 1}, "data_end": {"last_": 1}, "begin": {"first_": 1},
+             "data": {"first_": 1}, "read_data": {"first_": 1}, "read_data_end": {"read_end_": 1}, "write_data": {"read_end_": 1},
+             "write_data_end": {"write_end_": 1}}
+TRANSPARENT_NUM = ("fcppt::cast::to_unsigned", "fcppt::cast::to_signed", "fcppt::cast::size", "fcppt::cast::to_unsigned_fun", "std::move")
+
+
+def _add(a, b, k=1):
+    out = dict(a)
+    for x, c in b.items():
+        out[x] = out.get(x, 0) + k * c
+        if out[x] == 0:
+            del out[x]
+    return out
+
+
+def lin(t, defs):
+    """linear form {atom: coefficient} of a normalised term over the pointer fields of this->impl_, or None"""
+    if not isinstance(t, tuple) or not t:
+        return None
+    if t[0] == "k":
+        try:
+            v = int(str(t[1]).rstrip("uUlL"))
+        except (TypeError, ValueError):
+            return None
+        return {"1": v} if v else {}
+    if t[0] == "cast":
+        return lin(t[2], defs)
+    if t[0] == "v":
+        if t[1] in defs:
+            return defs[t[1]]
+        return {"var:%s" % t[2]: 1}
+    if t[0] == "m":
+        b = t[1]
+        if b == ("m", ("this",), "impl_") and t[2] in ("first_", "last_", "cap_", "read_end_", "write_end_"):
+            return {t[2]: 1}
+        return None
+    if t[0] == "b" and t[1] in ("+", "-"):
+        l, r = lin(t[2], defs), lin(t[3], defs)
+        if l is None or r is None:
+            return None
+        return _add(l, r, 1 if t[1] == "+" else -1)
+    if t[0] == "c" and isinstance(t[1], str):
+        short = t[1].split("::")[-1]
+        if t[1] in TRANSPARENT_NUM and len(t[3]) == 1:
+            return lin(t[3][0], defs)
+        if t[1] == "std::distance" and len(t[3]) == 2:
+            a, b = lin(t[3][0], defs), lin(t[3][1], defs)
+            return None if a is None or b is None else _add(b, a, -1)
+        if t[2] == ("this",) and not t[3] and short in ACCESSORS:
+            return dict(ACCESSORS[short])
+    return None
+
+
+def guard_form(t, pol, defs):
+    """a condition term under a polarity as linear form g with meaning g <= 0, or None"""
+    while isinstance(t, tuple) and t and t[0] == "u" and t[1] == "!":
+        t, pol = t[2], not pol
+    if not (isinstance(t, tuple) and t and t[0] == "b" and t[1] in ("<", "<=", ">", ">=")):
+        return None
+    l, r = lin(t[2], defs), lin(t[3], defs)
+    if l is None or r is None:
+        return None
+    op = t[1]
+    if not pol:
+        op = {"<": ">=", "<=": ">", ">": "<=", ">=": "<"}[op]
+    if op in (">", ">="):
+        l, r, op = r, l, {">": "<", ">=": "<="}[op]
+    g = _add(l, r, -1)
+    if op == "<":
+        g = _add(g, {"1": 1})
+    return g
+
+
+def always_exits(s):
+    if s is None:
+        return False
+    if s.get("k") in ("return", "throw"):
+        return True
+    if s.get("k") == "compound":
+        return any(always_exits(c) for c in s.get("ch", []))
+    return False
+
+
+def guarded_statements(stmts, conds=()):
+    """(statement, dominating (cond, polarity) list) in a structured body; an early exit guards the rest"""
+    conds = list(conds)
+    for s in stmts:
+        if s is None:
+            continue
+        k = s.get("k")
+        if k == "if":
+            thn, els = s.get("then"), s.get("else")
+            for x in guarded_statements([thn], conds + [(s.get("cond"), True)]):
+                yield x
+            for x in guarded_statements([els], conds + [(s.get("cond"), False)]):
+                yield x
+            if always_exits(thn) and not always_exits(els):
+                conds = conds + [(s.get("cond"), False)]
+            elif always_exits(els) and not always_exits(thn):
+                conds = conds + [(s.get("cond"), True)]
+        elif k == "compound":
+            for x in guarded_statements(s.get("ch", []), conds):
+                yield x
+        elif k in ("for", "while", "do", "range_for"):
+            for x in guarded_statements([s.get("body")], conds):
+                yield x
+        else:
+            yield (s, conds)
+
+
+def cap_sites(u, fn):
+    """[(site, advanced pointer field, n form, ok, why)] for every in-place advance of an end pointer of this->impl_"""
+    out = []
+    defs = {}
+    for (st, conds) in guarded_statements((fn.get("body") or {}).get("ch", [])):
+        if st.get("k") == "decl":
+            for v in st.get("ch", []):
+                if v.get("k") == "var" and v.get("init") is not None:
+                    f = lin(T.norm(u, v["init"]), defs)
+                    if f is not None:
+                        defs[v["id"]] = f
+        for n in F.walk(st, into_lambdas=False):
+            k = n.get("k")
+            tgt = new = None
+            if k == "unop" and n.get("op") == "++":
+                tgt = T.norm(u, n["e"])
+                new = _add(lin(tgt, defs) or {}, {"1": 1}) if lin(tgt, defs) else None
+            elif k == "compound_assign" and n.get("op") == "+=":
+                tgt = T.norm(u, n["l"])
+                a, b = lin(tgt, defs), lin(T.norm(u, n["r"]), defs)
+                new = _add(a, b) if a is not None and b is not None else None
+            elif k == "assign":
+                tgt = T.norm(u, n["l"])
+                new = lin(T.norm(u, n["r"]), defs)
+                if new is not None and not any(x in new for x in ("first_", "last_", "read_end_", "write_end_", "cap_")):
+                    new = None
+                if isinstance(T.norm(u, n["r"]), tuple) and T.norm(u, n["r"]) == ("k", "nullptr"):
+                    continue
+            else:
+                continue
+            if not (isinstance(tgt, tuple) and tgt[0] == "m" and tgt[1] == ("m", ("this",), "impl_") and tgt[2] in END_FIELDS):
+                continue
+            site = u.loc(n.get("loc"))
+            if new is None:
+                out.append((site, tgt[2], None, False, "the new value of %s is not a linear expression over the pointer fields" % tgt[2]))
+                continue
+            req = _add(new, {"cap_": 1}, -1)          # new - cap_ <= 0
+            ok, seen = False, []
+            for (c, pol) in conds:
+                g = guard_form(T.norm(u, c), pol, defs)
+                if g is None:
+                    continue
+                seen.append(g)
+                d = _add(req, g, -1)
+                if all(x == "1" for x in d) and d.get("1", 0) <= 0:
+                    ok = True
+            out.append((site, tgt[2], new, ok, None if ok else
+                        "the new %s = %s is not bounded by cap_ under the dominating guards %s" % (tgt[2], show_lin(new), [show_lin(g) + " <= 0" for g in seen])))
+    return out
+
+
+def show_lin(f):
+    if not f:
+        return "0"
+    parts = []
+    for x, c in sorted(f.items(), key=lambda kv: (kv[0] == "1", kv[0])):
+        name = x if x != "1" else ""
+        if x == "1":
+            parts.append("%+d" % c)
+        elif c == 1:
+            parts.append("+" + name)
+        elif c == -1:
+            parts.append("-" + name)
+        else:
+            parts.append("%+d*%s" % (c, name))
+    return " ".join(parts).lstrip("+")
+
+
 def path_seqs(u, fn):
     """call sequences per structured path (if-splitting), conditions excluded"""
     body = fn.get("body") or {}
@@ -87,6 +271,9 @@ def main(rep, tier, only):
     rep.rule("ALIAS", "insert(pos, T const&) / insert(pos, n, T const&) never read the value parameter after writing element storage", floor=2)
     rep.rule("RET", "erase returns its first iterator parameter; insert(pos, v) returns begin()+offset / pos", floor=3)
     rep.rule("BUF", "buffer::release hands (first_, read_end_, cap_) and nulls the buffer; to_raw_vector uses release()", floor=2)
+    rep.rule("OWN-3", "a member that overwrites the whole impl_ of an existing object has released the old storage on that path first, or is a swap", floor=3)
+    rep.rule("CAP", "every in-place advance of an end pointer is dominated by a guard equal, by linear normalisation over the pointer fields, "
+                    "to `new end <= cap_` (functions whose contract puts the bound on the caller are listed as contract)", floor=4)
     rv = L.method_fns(db, RV) + L.method_fns(db, RV + "::impl") + L.method_fns(db, BUF + "::impl")
     if len(rv) < 30:
         rep.broken("raw_vector::object: only %d members analysed" % len(rv))
@@ -131,6 +318,39 @@ def main(rep, tier, only):
         if fn.get("kind") == "ctor" and fn.get("ctor_kind") == "move" and name == BUF + "::object":
             ok = any(q.endswith("::release_internal") and "_other" in T.show(T.norm(u, n.get("recv"))) for q, n in seq)
             (rep.ok if ok else rep.fail)("OWN-2", key, F.primary_site(fn), F.describe(fn)[:160], **({"how": "source released"} if ok else {"why": "the moved-from buffer keeps its pointers (double free)"}))
+        # ---- OWN-3
+        if fn.get("kind") not in ("ctor", "dtor") and (name.startswith(RV + "::") or name.startswith(BUF + "::")) and "::impl::" not in name \
+                and short not in ("swap", "set_pointers"):
+            bad = None
+            n_over = 0
+            for pseq in path_seqs(u, fn):
+                released = False
+                for (q, n) in pseq:
+                    recv = T.show(T.norm(u, n.get("recv"))) if n.get("recv") is not None else ""
+                    if q.endswith("::deallocate") and "alloc_" not in recv and "_other" not in recv and "new_" not in recv:
+                        released = True
+                    over = (q.endswith("::set_pointers") and recv in ("this", "")) or (q.endswith("impl::operator=") and recv in ("impl_", "this.impl_"))
+                    if over:
+                        n_over += 1
+                        if not released:
+                            bad = "%s at %s overwrites the storage pointers of this object without a preceding deallocate(): the old block is never released" % (q.split("::")[-1], u.loc(n.get("loc")))
+            if n_over:
+                (rep.fail if bad else rep.ok)("OWN-3", key, F.primary_site(fn), F.describe(fn)[:160], **({"why": bad} if bad else {"how": "deallocate-before-overwrite"}))
+        if short == "operator=" and fn.get("params") and fn["params"][0]["ref"] == "rref" and "::impl::" not in name and (name.startswith(RV + "::") or name.startswith(BUF + "::")):
+            sw = [q for q, n in seq if q.endswith("::swap")]
+            if sw:
+                rep.ok("OWN-3", key + "|swap", F.primary_site(fn), F.describe(fn)[:160], how="swap")
+        # ---- CAP
+        if fn.get("kind") not in ("ctor", "dtor") and (name.startswith(RV + "::") or name.startswith(BUF + "::")) and "::impl::" not in name \
+                and short != "set_pointers":
+            for (site, fld, new, ok, why) in cap_sites(u, fn):
+                k2 = "%s|%s" % (key, fld)
+                if short == "written":
+                    rep.ok("CAP", k2, site, F.describe(fn)[:160], how="contract: written(n) requires n <= write_size() (documented)")
+                elif ok:
+                    rep.ok("CAP", k2, site, F.describe(fn)[:160], how="guard == (new end <= cap_)")
+                else:
+                    rep.fail("CAP", k2, site, F.describe(fn)[:160], why=why)
         # ---- ALIAS
         if short == "insert" and name.startswith(RV) and fn.get("params"):
             last = fn["params"][-1]
